@@ -41,6 +41,17 @@ def to_swan(
     """
     # If grid reshape into site, otherwise ensure there is site dim to iterate over
     dset = self._check_and_stack_dims()
+
+    # Ensure time dimension exists (only in the spectra, lon / lat stay one per site)
+    is_time = attrs.TIMENAME in dset[attrs.SPECNAME].dims
+    if not is_time:
+        dset = dset.drop_vars(attrs.TIMENAME, errors="ignore")
+        dset[attrs.SPECNAME] = dset[attrs.SPECNAME].expand_dims({attrs.TIMENAME: [None]})
+        times = dset[attrs.TIMENAME].values
+    else:
+        times = dset[attrs.TIMENAME].to_index().to_pydatetime()
+        times = [f"{t:%Y%m%d.%H%M%S}" for t in times]
+
     ntime = min(ntime or dset.time.size, dset.time.size)
 
     # Handle datasets with missing lon/lat
@@ -51,15 +62,6 @@ def to_swan(
             elif len(arr) != dset.site.size:
                 raise ValueError(f"{name} must have same size as site dimension")
             dset[name] = (("site",), arr)
-
-    # Ensure time dimension exists
-    is_time = attrs.TIMENAME in dset[attrs.SPECNAME].dims
-    if not is_time:
-        dset = dset.expand_dims({attrs.TIMENAME: [None]})
-        times = dset[attrs.TIMENAME].values
-    else:
-        times = dset[attrs.TIMENAME].to_index().to_pydatetime()
-        times = [f"{t:%Y%m%d.%H%M%S}" for t in times]
 
     # Keeping only supported dimensions
     dims_to_keep = {attrs.TIMENAME, attrs.SITENAME, attrs.FREQNAME, attrs.DIRNAME}
